@@ -7,7 +7,7 @@ cd /verif
 cat <<'H'
 # Seeded changes (kept, confirmed) and the checks that report them
 
-Each directory holds `patch.diff` (never committed to /repo), `demo.py` (fails with the patch, passes without) and `meta.json` (what it breaks, what it needs to manifest, what was run, which checks fired). Produced by fresh sub-agents that saw only the property text and their own scratch worktree; confirmed by `tools/seed_eval.py`. Rounds: unnumbered and `r2` (early), `r5` (five named kinds of mechanism), `r6` ... `r11` (held-out measurements, see DESIGN.md sections 9.9 to 9.14). Patches are kept rebased on /repo's HEAD (`fix:` commits were made after rounds 6, 8, 9 and 10). `tools/corpus.py --kind seeded --target-only` is the fast re-run; this table is produced by `tools/reeval_seeded.py`.
+Each directory holds `patch.diff` (never committed to /repo), `demo.py` (fails with the patch, passes without) and `meta.json` (what it breaks, what it needs to manifest, what was run, which checks fired). Produced by fresh sub-agents that saw only the property text and their own scratch worktree; confirmed by `tools/seed_eval.py`. Rounds: unnumbered and `r2` (early), `r5` (five named kinds of mechanism), `r6` ... `r12` (held-out measurements, see DESIGN.md sections 9.9 to 9.15). Patches are kept rebased on /repo's HEAD (`fix:` commits were made after rounds 6, 8, 9 and 10). `tools/corpus.py --kind seeded --target-only` is the fast re-run; this table is produced by `tools/reeval_seeded.py`.
 
 H
 /venv/bin/python tools/reeval_seeded.py 2>/tmp/reeval.err
